@@ -19,9 +19,9 @@
      RecursionError).
    * `osup` is a ghost flag: "this object is an older definition that handleDuplicate has renamed" (the exception
      the property text makes); the harness observes it by wrapping System.handleDuplicate.
-   * System.unprocessed_modules / Module.state (C01's domain) are not modelled: in the modelled API use every
-     module is added by _addUnprocessedModule and never processed, so `unprocessed_modules.remove(first)` and
-     `assert mod.state is UNPROCESSED` cannot fail. _is_c_module is always False. *)
+   * Module.state (C01's domain) is not modelled: in the modelled API use no module is ever processed, so
+     `assert mod.state is UNPROCESSED` cannot fail.  System.unprocessed_modules is modelled (its `remove(first)`
+     raises for a module that was replaced earlier).  _is_c_module is always False. *)
 From Coq Require Import ZArith NArith List Bool.
 From PydoctorVerif Require Import Base.Sexp.
 Import ListNotations.
@@ -61,7 +61,8 @@ Record state := mkState {
   next : id;                          (* ids < next are allocated *)
   allobj : registry;                  (* System.allobjects *)
   roots : list id;                    (* System.rootobjects *)
-  depthb : nat                        (* ghost: recursion fuel *)
+  depthb : nat;                       (* ghost: recursion fuel *)
+  unproc : list id                    (* System.unprocessed_modules *)
 }.
 
 (* ---- equality tests ---- *)
@@ -133,11 +134,12 @@ Definition with_subs (o : obj) (b : list id) : obj :=
 Definition with_sup (o : obj) (b : bool) : obj :=
   mkObj (oname o) (oparent o) (ocl o) (okind o) (ocont o) (oalias o) (obases o) (osubs o) b.
 
-Definition set_store (s : state) (st : id -> obj) : state := mkState st (next s) (allobj s) (roots s) (depthb s).
-Definition set_allobj (s : state) (m : registry) : state := mkState (store s) (next s) m (roots s) (depthb s).
+Definition set_store (s : state) (st : id -> obj) : state := mkState st (next s) (allobj s) (roots s) (depthb s) (unproc s).
+Definition set_allobj (s : state) (m : registry) : state := mkState (store s) (next s) m (roots s) (depthb s) (unproc s).
+Definition set_unproc (s : state) (u : list id) : state := mkState (store s) (next s) (allobj s) (roots s) (depthb s) u.
 
 Definition dummy : obj := mkObj (0, []) None CAttribute 0 [] [] [] [] false.
-Definition init : state := mkState (fun _ => dummy) 0 [] [] 1.
+Definition init : state := mkState (fun _ => dummy) 0 [] [] 1 [].
 
 (* ---- Documentable.fullName : walks up `parent` ---- *)
 Fixpoint fullpath_f (fuel : nat) (st : id -> obj) (o : id) : option path :=
@@ -223,7 +225,7 @@ Definition kind_of (c : ocls) (parent_cls : option ocls) (k : N) : N :=
 Definition alloc (s : state) (c : ocls) (n : name) (parent : option id) (k : N) : state * id :=
   let pc := match parent with None => None | Some q => Some (ocl (store s q)) end in
   let o := mkObj n parent c (kind_of c pc k) [] [] [] [] false in
-  (mkState (upd (store s) (next s) o) (N.succ (next s)) (allobj s) (roots s) (S (depthb s)), next s).
+  (mkState (upd (store s) (next s) o) (N.succ (next s)) (allobj s) (roots s) (S (depthb s)) (unproc s), next s).
 
 (* ---- System.handleDuplicate ---- *)
 Fixpoint find_free (fuel : nat) (used : N -> bool) (i : N) : option N :=
@@ -252,7 +254,7 @@ Definition handle_duplicate (s : state) (ob : id) (fn : path) : option state :=
         (* prev.name = obj.name + ' ' + str(i) *)
         let st2 := upd (store s) prev
                        (with_sup (with_name (store s prev) (dup_name (oname (store s ob)) i)) true) in
-        let s2 := mkState st2 (next s) m1 (roots s) (depthb s) in
+        let s2 := mkState st2 (next s) m1 (roots s) (depthb s) (unproc s) in
         (* readd(prev) *)
         match readd_tree s2 prev with
         | None => None
@@ -273,7 +275,7 @@ Definition add_object (s : state) (ob : id) : option state :=
       Some (set_store s (upd (store s) q (with_cont (store s q) (cset (oname o) ob (ocont (store s q))))))
     | None =>
       if is_module (ocl o)
-      then Some (mkState (store s) (next s) (allobj s) (roots s ++ [ob]) (depthb s))   (* rootobjects.append *)
+      then Some (mkState (store s) (next s) (allobj s) (roots s ++ [ob]) (depthb s) (unproc s))   (* rootobjects.append *)
       else None                                                                        (* ValueError *)
     end in
   match r1 with
@@ -291,12 +293,16 @@ Definition add_object (s : state) (ob : id) : option state :=
   end.
 
 (* ---- System._addUnprocessedModule / _handleDuplicateModule (mod is already constructed) ---- *)
+Fixpoint remove1 (x : id) (l : list id) : list id :=           (* list.remove(x): the first occurrence *)
+  match l with [] => [] | y :: t => if N.eqb y x then t else y :: remove1 x t end.
 Definition add_unprocessed_module (s : state) (md : id) : option state :=
   match fullpath s md with
   | None => None
   | Some fn =>
     match rget fn (allobj s) with
-    | None => add_object s md
+    | None =>
+      (* self.unprocessed_modules.append(mod); self.addObject(mod) *)
+      add_object (set_unproc s (unproc s ++ [md])) md
     | Some first =>
       if negb (is_module (ocl (store s first))) then None            (* assert isinstance(first, Module) *)
       else
@@ -307,16 +313,19 @@ Definition add_unprocessed_module (s : state) (md : id) : option state :=
           match remove_tree s first with                            (* self._remove(first) *)
           | None => None
           | Some m1 =>
-            let s1 := set_allobj s m1 in
-            (* self._addUnprocessedModule(dup): the name must be free now *)
-            match fullpath s1 md with
-            | None => None
-            | Some fn' =>
-              match rget fn' m1 with
-              | None => add_object s1 md
-              | Some _ => None                                      (* would remove `first` twice: ValueError *)
+            (* self.unprocessed_modules.remove(first): ValueError when absent *)
+            if negb (existsb (N.eqb first) (unproc s)) then None
+            else
+              let s1 := set_unproc (set_allobj s m1) (remove1 first (unproc s)) in
+              (* self._addUnprocessedModule(dup): the name must be free now *)
+              match fullpath s1 md with
+              | None => None
+              | Some fn' =>
+                match rget fn' m1 with
+                | None => add_object (set_unproc s1 (unproc s1 ++ [md])) md
+                | Some _ => None                                    (* would remove `first` twice: ValueError *)
+                end
               end
-            end
           end
     end
   end.
@@ -336,7 +345,7 @@ Definition reparent (s : state) (o newparent : id) (newname : name) : option sta
         let oldname := oname (store s o) in
         (* self.parent = self.parentMod = new_parent; self.name = new_name *)
         let st2 := upd (store s) o (with_name (with_parent (store s o) (Some newparent)) newname) in
-        let s2 := mkState st2 (next s) m1 (roots s) (S (depthb s + depthb s)) in
+        let s2 := mkState st2 (next s) m1 (roots s) (S (depthb s + depthb s)) (unproc s) in
         (* self._handle_reparenting_post() *)
         match readd_tree s2 o with
         | None => None
@@ -353,7 +362,7 @@ Definition reparent (s : state) (o newparent : id) (newname : name) : option sta
               let st4 := upd st3 oldp (with_alias (st3 oldp) (aset name_eqb oldname fno (oalias (st3 oldp)))) in
               (* new_parent.contents[new_name] = self *)
               let st5 := upd st4 newparent (with_cont (st4 newparent) (cset newname o (ocont (st4 newparent)))) in
-              let s5 := mkState st5 (next s) m2 (roots s) (depthb s2) in
+              let s5 := mkState st5 (next s) m2 (roots s) (depthb s2) (unproc s) in
               (* self._handle_reparenting_post() *)
               match readd_tree s5 o with
               | None => None
@@ -556,7 +565,7 @@ Definition inv_check (s : state) : bool :=
    input  := ( op ... )
      op   := ( 0 pkg name parent? ) | ( 1 cls name parent kind ) | ( 2 o newparent newname ) | ( 3 c ( base? ... ) ) | ( 4 )
      name := ( base ( i ... ) )       x? := () | ( x )       cls: 0 Module 1 Package 2 Class 3 Function 4 Attribute
-   output := ( failed? allobjects objects roots pages inv guarded )
+   output := ( failed? allobjects objects roots pages inv guarded unprocessed )
      allobjects := ( ( path id ) ... ) in dict order
      objects    := for id = 0 .. next-1: ( name parent? cls kind ( ( name id ) ... ) ( ( name path ) ... ) ( base? ... ) ( sub ... ) sup )
      pages      := for every allobjects entry: ( id file? )   (file of the page object the entry is documented on)
@@ -599,7 +608,7 @@ Definition dump (s : state) (failed : option N) (g : bool) : sexp :=
      L (map (fun i => sexp_of_obj (store s i)) (ids_below (N.to_nat (next s))));
      L (map of_N (roots s));
      L (map (fun e => L [of_N (snd e); of_option sexp_of_path (page_of s (snd e))]) (allobj s));
-     of_bool (inv_check s); of_bool g].
+     of_bool (inv_check s); of_bool g; L (map of_N (unproc s))].
 
 Definition run (x : sexp) : sexp :=
   let ops := map op_of_sexp (to_list x) in
